@@ -40,6 +40,7 @@ type sqCase struct {
 	NoPressure bool     `json:"no_pressure,omitempty"` // C06 mode A: the executor skips writes that would push live cost over MaxSize
 	CostFn     bool     `json:"cost_fn,omitempty"`     // the store is built with a cost function; writes flagged ZeroCost pass cost 0 and let it decide
 	Keys       int      `json:"keys"`
+	Pool       bool     `json:"entry_pool,omitempty"` // UseEntryPool(true); the executor then waits for the write queue before every step and never stalls maintenance (known finding C05-pool-stale-event needs a queued event whose entry is recycled meanwhile)
 	Steps      []sqStep `json:"steps"`
 }
 
@@ -282,7 +283,7 @@ func execSeq(c sqCase, x *verifkit.Ctx, c03, c06 bool, stats ...bool) (fail *ver
 	if VerifNoMaintenance.Load() {
 		panic("sequential harness needs the real maintenance goroutines")
 	}
-	opts := &StoreOptions[int, int]{MaxSize: int64(c.MaxSize), Doorkeeper: c.Doorkeeper, Listener: r.listener}
+	opts := &StoreOptions[int, int]{MaxSize: int64(c.MaxSize), Doorkeeper: c.Doorkeeper, Listener: r.listener, EntryPool: c.Pool}
 	if c.CostFn {
 		// the cost of a value is what the case says for the write that produced it
 		opts.Cost = func(v int) int64 {
@@ -347,6 +348,15 @@ func execSeq(c sqCase, x *verifkit.Ctx, c03, c06 bool, stats ...bool) (fail *ver
 
 	for i, st := range c.Steps {
 		r.step = i
+		if c.Pool {
+			if st.Op == "stall" || st.Op == "unstall" {
+				continue
+			}
+			if !r.stalled && !r.tickReq {
+				r.wait()
+			}
+			r.cls["entry-pool"] = true
+		}
 		at := r.now()
 		switch st.Op {
 		case "set":
@@ -820,6 +830,7 @@ func genSqAdv(t *rapid.T, keys int) sqStep {
 func genC03(t *rapid.T) sqCase {
 	c := sqCase{MaxSize: rapid.SampledFrom([]int{2, 8, 64, 1000}).Draw(t, "maxsize"), Loading: rapid.Bool().Draw(t, "loading")}
 	c.Keys = rapid.IntRange(1, 6).Draw(t, "keys")
+	c.Pool = rapid.IntRange(0, 4).Draw(t, "pool") == 0
 	stepGen := rapid.Custom(func(t *rapid.T) sqStep {
 		k := rapid.IntRange(0, c.Keys-1).Draw(t, "k")
 		switch op := rapid.IntRange(0, 29).Draw(t, "op"); {
@@ -856,6 +867,7 @@ func genC06(t *rapid.T) sqCase {
 	c.NoPressure = rapid.IntRange(0, 2).Draw(t, "mode") != 0
 	c.CostFn = rapid.IntRange(0, 2).Draw(t, "costFn") == 0
 	c.Keys = rapid.IntRange(1, 6).Draw(t, "keys")
+	c.Pool = rapid.IntRange(0, 3).Draw(t, "pool") == 0
 	cost := func(t *rapid.T) int64 {
 		switch rapid.IntRange(0, 9).Draw(t, "costClass") {
 		case 0, 1, 2, 3:
@@ -938,7 +950,7 @@ func TestVerifC06Seq(t *testing.T) {
 	verifkit.Run(t, verifkit.Spec[sqCase]{
 		ID: "C06", Gen: genC06,
 		Exec:        func(c sqCase, x *verifkit.Ctx) *verifkit.Failure { return execSeq(c, x, false, true) },
-		Rule:        "C06: rapid draws MaxSize in {1,2,5,10,50}, doorkeeper, loading, a no-pressure/pressure mode and up to 40 steps of Set/SetWithTTL (cost classes 1, MaxSize, MaxSize+1, 5*MaxSize, 1..MaxSize; in a third of the cases the store has a cost function and half of the writes/loads pass cost 0 so that it supplies the cost) / Get / loading Get with scripted loader cost+TTL / Delete / advance / forced tick / Wait, plus scenarios in which the Set that revives an expired key is queued on the shard lock ahead of the expiry path of a forced tick (harness holds the lock, hook H4 reports the expiry path's arrival); non-trivial = a key was written after its earlier value expired, or TTL and non-TTL writes were mixed on one key, or an oversized cost went through Set or the loader",
+		Rule:        "C06: rapid draws MaxSize in {1,2,5,10,50}, doorkeeper, loading, entry pool (a quarter of the cases), a no-pressure/pressure mode and up to 40 steps of Set/SetWithTTL (cost classes 1, MaxSize, MaxSize+1, 5*MaxSize, 1..MaxSize; in a third of the cases the store has a cost function and half of the writes/loads pass cost 0 so that it supplies the cost) / Get / loading Get with scripted loader cost+TTL / Delete / advance / forced tick / Wait, plus scenarios in which the Set that revives an expired key is queued on the shard lock ahead of the expiry path of a forced tick (harness holds the lock, hook H4 reports the expiry path's arrival); non-trivial = a key was written after its earlier value expired, or TTL and non-TTL writes were mixed on one key, or an oversized cost went through Set or the loader",
 		Assumptions: append([]string{"no-pressure mode: the executor skips a write that would push the cost of all entries not yet reported EXPIRED/EVICTED above MaxSize (conservative reading of 'live keys')"}, sqAssumptions...),
 	})
 }
